@@ -236,12 +236,15 @@ impl<'a> LspServer<'a> {
             match Self::cast_notification::<notification::DidChangeTextDocument>(notification) {
                 Ok(params) => {
                     trace!("DidChangeTextDocument {}", params.text_document.uri);
-                    let contents = params.content_changes.into_iter().next().unwrap().text;
                     let uri = params.text_document.uri;
                     let version = params.text_document.version;
 
-                    self.project
-                        .change_text_document(&uri, contents.as_str().to_string());
+                    // The server asks for full synchronization so each change
+                    // is the whole document and the last change is the current
+                    // content. Without a change the content stays as it is.
+                    if let Some(change) = params.content_changes.into_iter().last() {
+                        self.project.change_text_document(&uri, change.text);
+                    }
                     let diagnostics = self.project.semantic(&uri);
 
                     self.send_notification::<PublishDiagnostics>(PublishDiagnosticsParams {
